@@ -387,6 +387,15 @@ func cmdCheck(args []string) int {
 		fmt.Printf("INCONCLUSIVE property=%s cannot load /repo with harness overlay: %v\n", *prop, err)
 		return 2
 	}
+	interceptRe := regexp.MustCompile(`(?m)^//\s*INTERCEPT:\s*(\S.*?)\s*=>\s*(\S+)\s*$`)
+	for _, hp := range allPkgs {
+		for _, f := range hp.files {
+			src, _ := os.ReadFile(f)
+			for _, m := range interceptRe.FindAllStringSubmatch(string(src), -1) {
+				eng.Intercepts[m[1]] = m[2]
+			}
+		}
+	}
 	eng.Tier = tierN
 	eng.Workers = *workers
 	eng.Solver = *solver
